@@ -681,6 +681,11 @@ type c13Scenario struct {
 	partial bool     // the final response is cut short: the expected body dump is the script's prefix, not the caller's (failed) result
 	class   string   // known-finding class this input belongs to ("" = none)
 	order   []string // paths hit, in order, for the expected response side
+	// round 7: a header order (collect-sort-write path of writeRequest), set on the request
+	// (SetHeaderOrder) or on the client (SetCommonHeaderOrder). Every key the request can carry
+	// is listed, so that the wire order does not depend on Go's map iteration order.
+	hdrOrder    []string
+	orderClient bool
 }
 
 type c13Result struct {
@@ -985,6 +990,25 @@ func c13GenScenario(s *verifh.Session, flow, feature string) *c13Scenario {
 		sc.scripts[target] = []c13Resp{c13GenResp(s, final, feature, bodyKind)}
 		sc.order = []string{sc.path, target}
 	}
+	if r.Intn(4) == 0 {
+		list := []string{"Host", "User-Agent", "Content-Length", "Transfer-Encoding", "Content-Type", "Accept-Encoding",
+			"Connection", "Expect", "Trailer", "Accept", "Cookie", "Referer", "Authorization", "Content-Encoding", "X-Absent"}
+		seen := map[string]bool{}
+		for _, h := range sc.headers {
+			if k := http.CanonicalHeaderKey(h[0]); !seen[k] {
+				seen[k] = true
+				list = append(list, k)
+			}
+		}
+		r.Shuffle(len(list), func(i, j int) { list[i], list[j] = list[j], list[i] })
+		for i := range list {
+			if r.Intn(3) == 0 {
+				list[i] = strings.ToLower(list[i])
+			}
+		}
+		sc.hdrOrder = list
+		sc.orderClient = r.Intn(2) == 0
+	}
 	return sc
 }
 
@@ -1023,6 +1047,13 @@ func c13RunH1(peer *c13Peer, sc *c13Scenario, cfg *c13DumpCfg, viaSet bool, time
 	rq := cl.R()
 	for _, h := range sc.headers {
 		rq.SetHeader(h[0], h[1])
+	}
+	if len(sc.hdrOrder) > 0 {
+		if sc.orderClient {
+			cl.SetCommonHeaderOrder(sc.hdrOrder...)
+		} else {
+			rq.SetHeaderOrder(sc.hdrOrder...)
+		}
 	}
 	switch sc.bodyVia {
 	case "bytes":
@@ -1178,7 +1209,7 @@ func c13Judge(p *c13Pending, answer string) {
 // captures what the client sends.
 func TestVerif_C13_e2eh1(t *testing.T) {
 	s := verifh.New(t, "C13", "e2eh1",
-		"HTTP/1.1 paired runs (dump off / dump on, fresh client each) against a raw TCP script peer: flows single / retry after 5xx / redirect; requests GET/POST/PUT/PATCH with 0..80 KB bodies sent with Content-Length, as unknown-length reader (chunked) or forced chunked, big and many request headers; responses with Content-Length / chunked (+trailer) / EOF framing, 0..70 KB, gzip, GBK auto-decoded, 204/304, 103 interim, header line > 4 KiB, 40-100 headers, obs-fold, bare LF; dump config: 16 part subsets x 4 writer routings x sync/async x client / request / both levels; oracle: wire capture and caller-visible result equal in the pair, each writer's writes = an interleaving of the request-side and response-side byte sequences the Lean model's expectedDump assigns to it (CR/LF-only separator writes to Output() ignored); non-trivial = every pair")
+		"HTTP/1.1 paired runs (dump off / dump on, fresh client each) against a raw TCP script peer: flows single / retry after 5xx / redirect; requests GET/POST/PUT/PATCH with 0..80 KB bodies sent with Content-Length, as unknown-length reader (chunked) or forced chunked, big and many request headers, in a quarter of the cases a header order over all keys (SetHeaderOrder / SetCommonHeaderOrder, mixed case); responses with Content-Length / chunked (+trailer) / EOF framing, 0..70 KB, gzip, GBK auto-decoded, 204/304, 103 interim, header line > 4 KiB, 40-100 headers, obs-fold, bare LF; dump config: 16 part subsets x 4 writer routings x sync/async x client / request / both levels; oracle: wire capture and caller-visible result equal in the pair, each writer's writes = an interleaving of the request-side and response-side byte sequences the Lean model's expectedDump assigns to it (CR/LF-only separator writes to Output() ignored); non-trivial = every pair")
 	r := s.Rand()
 	cnt := c13Counter{}
 	peer := c13NewPeer(t)
@@ -1271,10 +1302,18 @@ func TestVerif_C13_e2eh1(t *testing.T) {
 			class: sc.class, log: on.log, cl: on.cl, tokens: map[string]string{}, seqOf: map[string]int{},
 			outputs: map[int]bool{10: true, 20: true}, nontrivial: true,
 		}
-		p.human = fmt.Sprintf("%s %s body=%dB via %q; %s; result %s", sc.method, sc.name, len(sc.body), sc.bodyVia, cfg.String(), c13Clip(off.res.String(), 160))
+		p.human = fmt.Sprintf("%s %s body=%dB via %q order=%d(client=%v); %s; result %s", sc.method, sc.name, len(sc.body), sc.bodyVia, len(sc.hdrOrder), sc.orderClient, cfg.String(), c13Clip(off.res.String(), 160))
 		cnt.add(s, "flow="+flow)
 		cnt.add(s, "feature="+feature)
 		cnt.add(s, "level="+level)
+		if len(sc.hdrOrder) > 0 {
+			cnt.add(s, "header-order")
+			if sc.orderClient {
+				cnt.add(s, "header-order-client")
+			} else {
+				cnt.add(s, "header-order-request")
+			}
+		}
 		cnt.add(s, fmt.Sprintf("subset=%d", subset))
 		if async && cfg.cl != nil {
 			cnt.add(s, "client-async")
@@ -1341,7 +1380,7 @@ func TestVerif_C13_e2eh1(t *testing.T) {
 		}
 	}
 	c13Finish(t, s, pend)
-	for _, must := range []string{"flow=retry", "flow=redirect", "flow=expect-reject", "flow=expect-continue", "flow=truncated", "flow=retry-after-reset", "flow=garbage", "baseline-error", "via-clone", "via-each-request", "feature=long", "feature=fold", "feature=many", "level=both", "client-async", "req-body-via-reader", "req-body-via-chunked", "req-body-via-multipart", "flow=head", "baseline-ok", "via-dump-all-to-file", "via-dump-to-file", "flat-dump-after-retry", "slow-writers"} {
+	for _, must := range []string{"flow=retry", "flow=redirect", "flow=expect-reject", "flow=expect-continue", "flow=truncated", "flow=retry-after-reset", "flow=garbage", "baseline-error", "via-clone", "via-each-request", "feature=long", "feature=fold", "feature=many", "level=both", "client-async", "req-body-via-reader", "req-body-via-chunked", "req-body-via-multipart", "flow=head", "baseline-ok", "via-dump-all-to-file", "via-dump-to-file", "flat-dump-after-retry", "slow-writers", "header-order-client", "header-order-request"} {
 		if cnt[must] == 0 {
 			t.Errorf("generator never reached bucket %q", must)
 		}
